@@ -9,13 +9,14 @@ META = {
     'text': 'Kernel-checked: for arbitrary rearrangements of every directory listing the specification owes the same calls as a multiset, the scans\' package lists are permutations and '
             'the emitted sorted key sequences are identical; output is always sorted; the 4-key comparison is a strict total order (SortFunc precondition); scanning several roots is the '
             'concatenation of scanning each alone. Tied to the Go engine by scanning each generated tree under 5 listing orders (random x3, sorted, reverse) and comparing the results.',
-    'note': 'Trusted as in C01. Go map iteration inside the engine (wc.errors / foundInv are maps keyed by name: order never observable) is sampled, not enumerated. Read faults are excluded '
+    'note': 'Findings of the FILESYSTEM extractors: the walk model carries finding identities (id, extractor, file); C08_perm_scan_roots_partial / _paths_partial conclude that the collected findings of a tree and of any rearrangement of it are permutations of each other, the implementation prints its emitted findings (fnd=) which are tied to the model, judged against the specification (specfnd) and are part of the permutation-group signature. Trusted as in C01. Go map iteration inside the engine (wc.errors / foundInv are maps keyed by name: order never observable) is sampled, not enumerated. Read faults are excluded '
             'from the permutation theorem (the position of a failing k-th read is itself order dependent).',
 }
-THEOREMS = ['Scalibr.Walk.C08_cmp_order', 'Scalibr.Walk.C08_sorted', 'Scalibr.Walk.C08_perm_spec', 'Scalibr.Walk.C08_perm_scan', 'Scalibr.Walk.C08_roots',
+THEOREMS = ['Scalibr.Walk.C08_cmp_order', 'Scalibr.Walk.C08_sorted', 'Scalibr.Walk.C08_perm_spec_partial', 'Scalibr.Walk.C08_perm_scan_partial', 'Scalibr.Walk.C08_roots_benign',
             'Scalibr.Walk.mustFrom_permute', 'Scalibr.isort_eq_of_perm', 'Scalibr.ltBytes_strictTotal', 'Scalibr.prodLt_strictTotal',
             'Scalibr.Walk.C08_perm_scan_roots_partial', 'Scalibr.Walk.C08_perm_scan_paths_partial', 'Scalibr.Walk.C08_perm_needs_noReadFaults',
-            'Scalibr.Walk.C08_perm_paths_needs_distinct', 'Scalibr.Walk.C08_no_dup', 'Scalibr.Walk.C08_no_dup_calls']
+            'Scalibr.Walk.C08_perm_paths_needs_distinct', 'Scalibr.Walk.C08_no_dup_partial', 'Scalibr.Walk.C08_no_dup_calls', 'Scalibr.Walk.C08_finds_of_calls',
+            'Scalibr.Walk.run_finds_spec']
 
 
 def run(ctx):
@@ -47,9 +48,15 @@ def run(ctx):
         names = [x.split('=')[0] for x in st.split(',')] if st != '-' else []
         if names != sorted(names):
             return 'plugin statuses are not sorted by name: %s' % st
+        # findings of the filesystem extractors: emitted sorted by advisory reference ("F-<extractor>-<path>", bytewise)
+        refs = [b'F-' + x.split('@')[0].encode() + b'-' + b'/'.join(bytes.fromhex(s) for s in x.split('@')[1].split('/') if s != '.') for x in W.fl(fi.get('fnd'))]
+        if fi.get('fnd') not in ('!bad',) and refs != sorted(refs):
+            return 'findings of the filesystem extractors are not emitted in reference order: %s' % W.fl(fi.get('fnd'))[:6]
+        if fi.get('fnd') == '!bad':
+            return 'a finding of a filesystem extractor was emitted with an unexpected shape'
         g = fi.get('grp')
         if g is not None:
-            sig = (fi.get('err'), fi.get('pkgs'), st, tuple(sorted(W.fl(fi.get('calls')))))
+            sig = (fi.get('err'), fi.get('pkgs'), st, tuple(sorted(W.fl(fi.get('calls')))), fi.get('fnd'))
             if g in groups and groups[g][0] != sig:
                 return 'the same content under another listing order gave a different result: %s vs %s (first order: %s)' % (sig[:3], groups[g][0][:3], groups[g][1][:200])
             groups.setdefault(g, (sig, case))
